@@ -451,12 +451,19 @@ def _check_o3(prog: Program, L: Ledger, irun: FuncInfo, cfg, lt, steps_param: st
     if n_checked == 0:
         raise AnalysisError("irun: no path executes the start-up block")
     # header precedes the observer call inside the block
+    # (execution order = pre-order of the normalised block; line numbers mean nothing once helpers were inlined)
     seq = []
-    for x in walk_no_nested(startup_if):
-        k = classify(x, steps_param)
+
+    def _preorder(node):
+        k = classify(node, steps_param) if isinstance(node, ast.AST) else None
         if k in ("H", "O"):
-            seq.append((x.lineno, k))
-    order = "".join(k for _, k in sorted(seq))
+            seq.append(k)
+        for ch in ast.iter_child_nodes(node):
+            if not isinstance(ch, (ast.FunctionDef, ast.AsyncFunctionDef, ast.Lambda, ast.ClassDef)):
+                _preorder(ch)
+
+    _preorder(startup_if)
+    order = "".join(seq)
     L.check(order == "HO", "O3", "irun:header-before-row", f"{irun.module.relpath}:{startup_if.lineno}",
             f"start-up block events are `{order}`: the header must be written there, once, before the step-0 observer call", "first log row precedes the header, or a logger that is not due at step 0 (negative interval) never gets a header", order)
     # the header is written by the one-shot start-up block and nowhere else: a header tied to the logger being *due*
